@@ -33,6 +33,8 @@ VARIANTS = {
     "retarget=100": dict(retarget=100),
     "fixed_rt=32": dict(fixed_rt=32),
     "fixed_rt=220": dict(fixed_rt=220),
+    "fixed_rt=10": dict(fixed_rt=10),  # off the clock grid (4 ns) and below the minimum duration (16 ns): the retarget slot is adjusted like any wait
+    "fixed_rt=10,retarget=0": dict(fixed_rt=10, retarget=0),
     "eom-bw=20": dict(eom=dict(mod_bandwidth=20)),
     "eom-buffer=40": dict(eom=dict(custom_buffer_time=40)),
     "eom-buffer=240": dict(eom=dict(custom_buffer_time=240)),  # equal to the derived 2*rise_time
